@@ -273,6 +273,10 @@ func (c *ctx) genKeyType() *Shape {
 func (c *ctx) genType(depth int) *Shape {
 	r := c.r
 	if depth >= c.cfg.MaxDepth {
+		// a reference does not deepen the tree, so it is still allowed at the depth limit
+		if c.cfg.Refs && len(c.objIDs) > 0 && r.Chance(25) {
+			return &Shape{Kind: KRef, RefID: wk.Pick(r, c.objIDs), Display: r.Bool()}
+		}
 		return c.genScalar()
 	}
 	switch k := r.Intn(20); {
@@ -578,7 +582,11 @@ func (c *ctx) genScope(depth int, top bool) *Shape {
 			inner.objIDs = ids[i+1:]
 		}
 		structMapped := c.cfg.Structs && r.Chance(20)
-		o := inner.genObject(depth+1, id, structMapped)
+		od := depth + 1
+		if !top && od > 1 {
+			od = depth // a nested scope's objects sit at the depth of the scope itself
+		}
+		o := inner.genObject(od, id, structMapped)
 		o.ID = id
 		s.Objects = append(s.Objects, o)
 	}
